@@ -7,9 +7,13 @@ MaxItems == atoi(IOEnv.MAXITEMS)
 C(ch) == [k |-> "c", v |-> ch]
 S1 == <<C("a"), C("b")>>
 S2 == <<C("b"), C("a"), [k |-> "j", v |-> 65], C("c"), C("a")>>
-T1 == << [text |-> <<"a">>, code |-> <<1>>], [text |-> <<"b">>, code |-> <<2>>], [text |-> <<"a", "b">>, code |-> <<3>>] >>
+\* a string that ends in an escaped quote: the characters between the outer quotes are a b \ ' (the backslash has
+\* no table entry and is skipped, the quote has one)
+S3 == <<C("a"), C("b"), C("\\"), C("'")>>
+T1 == << [text |-> <<"a">>, code |-> <<1>>], [text |-> <<"b">>, code |-> <<2>>], [text |-> <<"a", "b">>, code |-> <<3>>],
+         [text |-> <<"'">>, code |-> <<144>>], [text |-> <<"c">>, code |-> <<0, 67>>] >>
 T2 == << [text |-> <<"a">>, code |-> <<17>>], [text |-> <<"b", "a">>, code |-> <<18, 19>>] >>
-Items == { [k |-> "table", t |-> 1], [k |-> "table", t |-> 2], [k |-> "text", s |-> S1], [k |-> "text", s |-> S2],
+Items == { [k |-> "table", t |-> 1], [k |-> "table", t |-> 2], [k |-> "text", s |-> S1], [k |-> "text", s |-> S2], [k |-> "text", s |-> S3],
            [k |-> "open"], [k |-> "close"] }
 
 VARIABLES items, depth
